@@ -47,17 +47,20 @@ type Orchestrator struct {
 	Parallel int
 	Start    time.Time
 
-	mu           sync.Mutex
-	Sum          Summary
-	setIdx       map[string]map[string]bool
-	fps          map[uint64]struct{}
-	violations   map[string]*foundViolation // by signature
-	inconclusive []string
-	children     int
-	crashed      int
-	stage1       int
-	stage2       int
-	Extra        map[string]any
+	mu            sync.Mutex
+	Sum           Summary
+	setIdx        map[string]map[string]bool
+	fps           map[uint64]struct{}
+	violations    map[string]*foundViolation // by signature
+	inconclusive  []string
+	children      int
+	crashed       int
+	stage1        int
+	stage2        int
+	Extra         map[string]any
+	Digests       map[int]string // per case index, from the workers' "D" lines
+	ChildEnv      []string       // extra environment for the children of the next RunStandard
+	BatchOverride int            // if > 0, overrides the property's batch size
 }
 
 func Root() string {
@@ -162,10 +165,11 @@ type journalInfo struct {
 	detail     string
 	summary    *Summary
 	violations []violationLine
+	digests    map[int]string
 }
 
 func readJournal(path string) *journalInfo {
-	ji := &journalInfo{lastBegun: -1, lastEnded: -1, hang: -1, mem: -1}
+	ji := &journalInfo{lastBegun: -1, lastEnded: -1, hang: -1, mem: -1, digests: map[int]string{}}
 	f, err := os.Open(path)
 	if err != nil {
 		return ji
@@ -191,6 +195,10 @@ func readJournal(path string) *journalInfo {
 					ji.mem = n
 				}
 				json.Unmarshal([]byte(rest), &ji.detail)
+			case 'D':
+				num, rest, _ := strings.Cut(body, " ")
+				n, _ := strconv.Atoi(num)
+				ji.digests[n] = rest
 			case 'V':
 				var v violationLine
 				if json.Unmarshal([]byte(body), &v) == nil {
@@ -222,7 +230,7 @@ func (o *Orchestrator) runChild(from, to int, timeoutS int, tag string) (*journa
 	errf, _ := os.Create(prefix + ".stderr")
 	outf, _ := os.Create(prefix + ".stdout")
 	cmd.Stdout, cmd.Stderr = outf, errf
-	cmd.Env = append(os.Environ(), "GOTRACEBACK=all")
+	cmd.Env = append(append(os.Environ(), "GOTRACEBACK=all"), o.ChildEnv...)
 	err := cmd.Start()
 	if err != nil {
 		return &journalInfo{lastBegun: -1, lastEnded: -1, hang: -1, mem: -1}, prefix, false
@@ -274,6 +282,9 @@ func headFile(path string, n int) string {
 func (o *Orchestrator) RunStandard() {
 	cases := Cases(o.P, o.Tier, o.Seed)
 	bs := o.P.BatchSize(o.Tier)
+	if o.BatchOverride > 0 {
+		bs = o.BatchOverride
+	}
 	if bs <= 0 {
 		bs = 1000
 	}
@@ -331,6 +342,14 @@ func (o *Orchestrator) RunStandard() {
 				for _, v := range ji.violations {
 					o.Violation(v.Case, v.Index, v.Signature, v.What, v.Witness)
 				}
+				o.mu.Lock()
+				if o.Digests == nil {
+					o.Digests = map[int]string{}
+				}
+				for k, v := range ji.digests {
+					o.Digests[k] = v
+				}
+				o.mu.Unlock()
 				switch {
 				case okExit && ji.summary != nil:
 					o.Merge(ji.summary, prefix+".fp")
